@@ -494,6 +494,66 @@ fn before_accept_scenarios(ctx: &Ctx, acc: &Accum) -> Option<FailInfo> {
     None
 }
 
+/// Clients send an invalid header and then stay connected and silent, as many as there are free slots.
+/// The server must end those connections itself; a fresh client is served.
+fn corrupt_then_silent(acc: &Accum) -> Option<FailInfo> {
+    use std::io::Write;
+    for workers in [0usize, 2] {
+        let server = netpipe::start_server(ServerOpts { conn_limit: 4, workers, ..ServerOpts::default() }).ok()?;
+        let wait = Duration::from_secs(6);
+        let mut obs = Client::connect(server.port).ok()?;
+        let _ = obs.sock.set_nonblocking(false);
+        let _ = obs.sock.write_all(&wire::simple(wire::NOOP, 1).bytes());
+        if !obs.read_until(wait, |c| c.has_opaque(1)) {
+            continue;
+        }
+        let mut bad = vec![];
+        for i in 0..3u32 {
+            if let Ok(mut c) = Client::connect(server.port) {
+                let _ = c.sock.set_nonblocking(false);
+                let mut f = wire::simple(wire::NOOP, 10 + i).bytes();
+                match i {
+                    0 => f[0] = 0x7f,
+                    1 => f[5] = 9,
+                    _ => f[1] = 0x66,
+                }
+                let _ = c.sock.write_all(&f);
+                bad.push(c);
+            }
+        }
+        std::thread::sleep(Duration::from_millis(100));
+        let fresh_ok = match Client::connect(server.port) {
+            Ok(mut d) => {
+                let _ = d.sock.set_nonblocking(false);
+                let _ = d.sock.write_all(&wire::simple(wire::NOOP, 5).bytes());
+                let r = d.read_until(wait, |c| c.has_opaque(5));
+                d.reset_close();
+                r
+            }
+            Err(_) => false,
+        };
+        let _ = obs.sock.write_all(&wire::simple(wire::NOOP, 2).bytes());
+        let obs_ok = obs.read_until(wait, |c| c.has_opaque(2));
+        acc.record_enum(hash_of(&("corrupt_then_silent", workers)), true, &["corrupt_then_silent"], || json!({"workers": workers}));
+        for c in bad {
+            c.reset_close();
+        }
+        obs.reset_close();
+        if !fresh_ok || !obs_ok {
+            return Some(FailInfo {
+                clause: "slots_held_by_faulty_clients".into(),
+                msg: format!(
+                    "[connection limit 4, runtime workers {}] three clients sent an invalid header and then stayed connected without sending or reading; a fresh connection was served: {}, the observer was still answered: {} - the server did not end the faulty connections and their slots are gone",
+                    workers, fresh_ok, obs_ok
+                ),
+                signature: "slots_held_by_faulty_clients".into(),
+                detail: json!({"scenario": "corrupt_then_silent", "workers": workers}),
+            });
+        }
+    }
+    None
+}
+
 /// A client leaves far more answers unread than its receive window holds and then faults (invalid
 /// header / half-close). Other connections must keep being served promptly.
 fn unread_backlog_scenarios(ctx: &Ctx, acc: &Accum) -> Option<FailInfo> {
@@ -595,6 +655,20 @@ pub fn check(ctx: &mut Ctx) -> i32 {
         write_evidence(ctx, &acc, RULE, ASSUME, 1);
         return EXIT_VIOLATION;
     }
+    for ph in [0, 1] {
+        let r = if ph == 0 { crate::props::l3phases::fire_and_forget_phase(ctx, &acc, "C18") } else { crate::props::l3phases::silent_peer_phase(ctx, &acc) };
+        if let Some(code) = r {
+            if code != EXIT_OK {
+                write_evidence(ctx, &acc, RULE, ASSUME, 1);
+                return code;
+            }
+        }
+    }
+    if let Some(fi) = corrupt_then_silent(&acc) {
+        report_violation(ctx, "c18_corrupt_then_silent", &fi.detail.clone(), &fi);
+        write_evidence(ctx, &acc, RULE, ASSUME, 1);
+        return EXIT_VIOLATION;
+    }
     if let Some(fi) = unread_backlog_scenarios(ctx, &acc) {
         report_violation(ctx, "c18_unread_backlog", &fi.detail.clone(), &fi);
         write_evidence(ctx, &acc, RULE, ASSUME, 1);
@@ -638,6 +712,20 @@ fn load(path: &str) -> Result<C18Case, String> {
 }
 
 pub fn replay(path: &str) -> i32 {
+    if std::fs::read_to_string(path).map(|s| s.contains("c18_corrupt_then_silent")).unwrap_or(false) {
+        let acc = Accum::new();
+        return match corrupt_then_silent(&acc) {
+            Some(fi) => {
+                println!("{}", fi.msg);
+                println!("VIOLATION property=C18 replay={}", path);
+                EXIT_VIOLATION
+            }
+            None => {
+                println!("replay {}: property C18 holds on this case", path);
+                EXIT_OK
+            }
+        };
+    }
     if std::fs::read_to_string(path).map(|s| s.contains("c18_unread_backlog")).unwrap_or(false) {
         let ctx = Ctx::new("C18", Tier::Quick, "fault_enumeration");
         let acc = Accum::new();
